@@ -98,7 +98,17 @@ pub fn res(t: &str, n: i64) -> ResJ {
 }
 
 /// model key i (>= 1) -> 2*i, absent probes are the odd numbers and 0
+/// C17 corpus directories written with the "scr" key map (see corpusgen): keys that differ in several bytes
+pub static SCRAMBLED_KEYS: std::sync::atomic::AtomicBool = std::sync::atomic::AtomicBool::new(false);
+
 pub fn key_bytes<const N: usize>(num: u64) -> ArrayKey<N> {
+    if SCRAMBLED_KEYS.load(std::sync::atomic::Ordering::SeqCst) {
+        let mut b = [0u8; N];
+        for j in 0..N { b[j] = ((num * 37 + (j as u64) * 11) % 251) as u8; }
+        b[0] = (num % 251) as u8;
+        b[N - 1] = (250 - (num * 7) % 251) as u8;
+        return ArrayKey::from(b);
+    }
     let mut b = [0u8; N];
     let be = num.to_be_bytes();
     let n = N.min(8);
